@@ -50,7 +50,7 @@ def main(argv=None):
     # order unknown failing cases: lowest level, then shortest case  -> first printed is the simplest
     unknown.sort(key=lambda fc: (fc['level'], len(lib.jkey(fc['case']))))
     seen_clauses = set()
-    vdir = os.path.join(ROOT, 'violations', prop)
+    vdir = os.path.join(os.environ.get('VERIF_VIOLATIONS_DIR') or os.path.join(ROOT, 'violations'), prop)
     for fc in unknown:
         clause = fc['failures'][0]['clause']
         if clause in seen_clauses and len(violations) >= 3:
